@@ -32,9 +32,21 @@ def main(argv):
     def m(x):
         calls.append(x)
         return payload(x)
-    ds = ld.new(list(range(n))).map(m).diskcache(cache_dir=d, reuse=True, clear=False)
+    clear = mode == 'fill-then-clear'
+    ds = ld.new(list(range(n))).map(m).diskcache(cache_dir=d, reuse=True, clear=clear)
     out = sys.stdout
-    if mode == 'fill':
+    if mode == 'fill-then-clear':
+        for i in range(n):
+            ds[i]
+        out.write('clearing\n')
+        out.flush()
+        del ds                      # last holder released: the directory is removed
+        import gc
+        gc.collect()
+        out.write('cleared\n')
+        out.flush()
+        time.sleep(30)
+    elif mode == 'fill':
         out.write('ready\n')
         out.flush()
         order = list(range(n))
